@@ -356,6 +356,11 @@ async fn s_malformed(h: &mut Host) -> Result<(), Fail> {
     }
     expect_code(h.sub("projects/p/subscriptions/pushy", t, 0, Some("ftp://nope")).await, Code::InvalidArgument, "C17", "CreateSubscription with an unsupported push endpoint")?;
     expect_code(h.subscriber.get_subscription(GetSubscriptionRequest { subscription: "projects/p/subscriptions/pushy".into() }).await, Code::NotFound, "C17+C10", "GetSubscription after a rejected CreateSubscription (the rejected request changed state)")?;
+    // unsupported endpoints whose first bytes are not ASCII (multi-byte characters at every small byte offset)
+    for bad in ["ftp\u{20ac}://nope", "htt\u{e9}p://nope", "\u{65e5}\u{672c}\u{8a9e}", "\u{e9}", "h\u{e9}ttp://nope", "ht\u{20ac}tp://nope", "\u{1F600}http://nope", "ws\u{e9}"] {
+        expect_code(h.sub("projects/p/subscriptions/pushy", t, 0, Some(bad)).await, Code::InvalidArgument, "C17", &format!("CreateSubscription with the unsupported push endpoint {:?}", bad))?;
+        expect_code(h.subscriber.get_subscription(GetSubscriptionRequest { subscription: "projects/p/subscriptions/pushy".into() }).await, Code::NotFound, "C17+C10", "GetSubscription after a rejected CreateSubscription (the rejected request changed state)")?;
+    }
     for (size, token) in [(-1, ""), (i32::MIN, ""), (1, "!!!"), (1, "AAAA"), (1, "AAAAAAAAAAAAAAAAAAAA")] {
         expect_code(h.publisher.list_topics(ListTopicsRequest { project: "projects/p".into(), page_size: size, page_token: token.into() }).await, Code::InvalidArgument, "C17+C13", &format!("ListTopics(page_size={}, page_token={:?})", size, token))?;
         expect_code(h.subscriber.list_subscriptions(ListSubscriptionsRequest { project: "projects/p".into(), page_size: size, page_token: token.into() }).await, Code::InvalidArgument, "C17+C13", &format!("ListSubscriptions(page_size={}, page_token={:?})", size, token))?;
@@ -363,7 +368,7 @@ async fn s_malformed(h: &mut Host) -> Result<(), Fail> {
     }
     expect_code(h.publisher.list_topics(ListTopicsRequest { project: "p".into(), page_size: 1, page_token: String::new() }).await, Code::InvalidArgument, "C17", "ListTopics(project without prefix)")?;
     // decodable tokens the server never issued: a valid, possibly empty page (8 bytes, any offset)
-    for tok in ["6AMAAAAAAAA=", "/////////38=", "AQAAAAAAAAA="] {
+    for tok in ["6AMAAAAAAAA=", "/////////38=", "AQAAAAAAAAA=", "//////////8=", "/v////////8=", "GPz///////8=", "F/z///////8="] {
         let r = h.publisher.list_topics(ListTopicsRequest { project: "projects/p".into(), page_size: 5, page_token: tok.into() }).await;
         if let Err(e) = r { if e.code() != Code::InvalidArgument { return Err(f("C13+C17", format!("ListTopics with the token {:?}: {:?}", tok, e.code()))); } }
         let r = h.publisher.list_topic_subscriptions(ListTopicSubscriptionsRequest { topic: t.into(), page_size: 5, page_token: tok.into() }).await;
@@ -451,7 +456,21 @@ async fn s_lists_and_content(h: &mut Host) -> Result<(), Fail> {
     let attrs: HashMap<String, String> = [("k".to_string(), "v".to_string()), ("k\u{e9}".to_string(), "\u{1F600}".to_string())].into_iter().collect();
     let payloads: Vec<(Vec<u8>, HashMap<String, String>)> = vec![(vec![], HashMap::new()), (vec![0, 255, 1, 254, 0], attrs.clone()), (vec![b'x'; 70_000], HashMap::new()), (vec![], attrs.clone())];
     let ids = h.publish(&hub, payloads.clone()).await.map_err(setup("publish"))?;
-    if ids.len() != payloads.len() { return Err(f("C08", format!("Publish returned {} ids for {} messages", ids.len(), payloads.len()))); }
+    if ids.len() != payloads.len() {
+        // one id per submitted message is C08; when the ids that were returned no longer stand for the messages at their
+        // positions in the request, the delivery under such an id carries another message's content: C09 as well
+        let m = h.pull(&subs[0], 10, true).await.map_err(setup("pull"))?;
+        for rm in m.iter() {
+            if let Some(pm) = rm.message.as_ref() {
+                if let Some(k) = ids.iter().position(|i| *i == pm.message_id) {
+                    if k < payloads.len() && (pm.data != payloads[k].0 || pm.attributes != payloads[k].1) {
+                        return Err(f("C08+C09", format!("Publish returned {} ids for {} messages, and the id returned at position {} ({:?}) is delivered with {} data bytes / {} attributes (published there: {} / {})", ids.len(), payloads.len(), k, pm.message_id, pm.data.len(), pm.attributes.len(), payloads[k].0.len(), payloads[k].1.len())));
+                    }
+                }
+            }
+        }
+        return Err(f("C08", format!("Publish returned {} ids for {} messages", ids.len(), payloads.len())));
+    }
     {
         let nums: Vec<u128> = ids.iter().map(|i| i.parse::<u128>().unwrap_or(0)).collect();
         if nums.windows(2).any(|w| w[0] >= w[1]) { return Err(f("C08", format!("Publish returned the ids {:?}: not strictly increasing in request order", ids))); }
